@@ -70,6 +70,15 @@ func checkStruct(c structCase) error {
 		pbt.Sample("escaped", s)
 	}
 
+	// what the helpers return is the caller's own: a caller that reuses the returned slices as
+	// scratch space (offsets turned into lengths, labels overwritten) must not change what the
+	// helpers answer for the same name afterwards
+	for i, pre := 0, dns.Split(s); i < len(pre); i++ {
+		pre[i] = -7 - i
+	}
+	for i, pre := 0, dns.SplitDomainName(s); i < len(pre); i++ {
+		pre[i] = "scribbled"
+	}
 	if got := dns.CountLabel(s); got != k {
 		return pbt.Errf("CountLabel(%q)=%d want %d", s, got, k)
 	}
